@@ -871,6 +871,9 @@ def check_checker_eq(ctx, ad: EqAdapter, episodes_quick=40, episodes_thorough=60
             if (f["check"] == "1") != acc:
                 ctx.disagreement(f"{ad.name}: checker model differs from real checker",
                                  {"inst": inst, "label": lab, "actions": sol, "real_accepts": acc, "model": f["check"]})
+            if "fix" in f and f["fix"] != f.get(fk):
+                ctx.disagreement(f"{ad.name}: repaired checker model (sizes from the instance) differs from the Spec",
+                                 {"inst": inst, "label": lab, "actions": sol, "model_fix": f["fix"], "spec": f.get(fk)})
             if f.get("feas") == "1" and not acc:
                 ctx.violation(f"{ad.name}:checker-rejects-feasible",
                               "the real checker raises for a solution that is feasible by the Lean Spec",
@@ -1075,13 +1078,15 @@ def _mods(prop, fam):
 # committed value of the `Params` constants it unfolds, and the property theorems of that unit go through it
 PARAM_THMS = {
     ("C03", "tsp"): [("Rl4co.Tsp.tourNext_eq", "roll shift −1 along the step dimension (utils/ops.get_tour_length)")],
-    ("C03", "atsp"): [("Rl4co.Atsp.tourNext_eq", "roll shift −1 with dims=1 (ATSPEnv._get_reward)")],
+    ("C03", "atsp"): [("Rl4co.Atsp.tourNext_eq", "roll shift −1 with dims=1 (ATSPEnv._get_reward)"),
+                      ("Rl4co.Atsp.reward_eq", "gather index order `M[b, nodes_src, nodes_tgt]`")],
     ("C03", "smtwtp"): [("Rl4co.Smtwtp.weightedTardiness_eq", "cumsum along jobs, presum − due, clamp `< 0`")],
     ("C04", "tsp"): [("Rl4co.Tsp.firstFlag_eq", "first-step test `td['i'].all() == 0`")],
     ("C04", "atsp"): [("Rl4co.Atsp.firstFlag_cons", "first-step test `batch_to_scalar(td['i']) == 0`")],
     ("C06", "tsp"): [("Rl4co.Tsp.check_eq", "checker operator `==`")],
     ("C06", "atsp"): [("Rl4co.Atsp.check_eq", "checker operator `==`")],
-    ("C06", "pdp"): [("Rl4co.Pdp.check_unfold", "checker operators `==`, `!=`, `<`")],
+    ("C06", "pdp"): [("Rl4co.Pdp.check_unfold", "checker operators `==`, `!=`, `<`, width source, depot prepended unless forced"),
+                     ("Rl4co.Pdp.checkWith_eq", "same for both width sources")],
     ("C01", "pdp"): [("Rl4co.Pdp.pairIdx_eq", "pairing offset `(a + n // 2) % (n + 1)`"),
                      ("Rl4co.Pdp.toDeliver0_eq", "reset: `n // 2 + 1` leading ones of to_deliver")],
     ("C02", "pdp"): [("Rl4co.Pdp.pairIdx_eq", "pairing offset `(a + n // 2) % (n + 1)`")],
@@ -1127,18 +1132,35 @@ THEOREMS.update({
                         T("Rl4co.Smtwtp.done_stable", "proved", "done is absorbing whatever is stepped"),
                         T("Rl4co.Smtwtp.steps_le", "proved", "no mask-confined run is longer than n")],
     # ---------------- C03
-    ("C03", "tsp"): [T("Rl4co.Tsp.reward_eq_objective", "proved", "reward = −closed tour length for every action list (symmetric distances)")],
-    ("C03", "atsp"): [T("Rl4co.Atsp.reward_eq_objective", "proved", "reward = −directed closed tour cost a_k→a_{k+1} for every action list and every matrix")],
+    ("C03", "tsp"): [T("Rl4co.Tsp.reward_eq_objective", "proved", "reward = −closed tour length for every action list (symmetric distances)"),
+                     T("Rl4co.Spec.Tsp.objective_roll1", "proved", "Spec sanity: tour length invariant under rotation of the closed tour (any matrix)"),
+                     T("Rl4co.Spec.Tsp.objective_reverse", "proved", "Spec sanity: invariant under reversal for symmetric distances"),
+                     T("Rl4co.Spec.Tsp.feasible_range", "proved", "Spec sanity: a feasible tour exists for every n"),
+                     T("Rl4co.Spec.Tsp.feasible_roll1", "proved", "Spec sanity: feasibility invariant under rotation"),
+                     T("Rl4co.Spec.Tsp.feasible_reverse", "proved", "Spec sanity: feasibility invariant under reversal"),
+                     T("Rl4co.Tsp.reward_roll1", "proved", "reward independent of the start node of the closed tour"),
+                     T("Rl4co.Tsp.reward_reverse", "proved", "reward independent of the direction (symmetric distances)")],
+    ("C03", "atsp"): [T("Rl4co.Atsp.reward_eq_objective", "proved", "reward = −directed closed tour cost a_k→a_{k+1} for every action list and every matrix"),
+                      T("Rl4co.Atsp.reward_legs", "proved", "leg by leg: reward = −Σ_k M[as[k]][as[(k+1) mod n]] (source index first; gather order and roll shift are extracted tokens)"),
+                      T("Rl4co.Atsp.reward_roll1", "proved", "reward independent of the start node of the closed tour"),
+                      T("Rl4co.Spec.Atsp.objective_roll1", "proved", "Spec sanity: directed tour cost invariant under rotation")],
     ("C03", "pdp"): [T("Rl4co.Pdp.reward_eq_objective", "proved", "reward = −length of depot→customers→depot for depot-free action lists"),
-                     T("Rl4co.Pdp.reward_eq_objective_force", "proved", "same for action lists 0 :: customers (forced start), D 0 0 = 0")],
-    ("C03", "smtwtp"): [T("Rl4co.Smtwtp.reward_eq_objective", "proved", "reward = −Σ w·max(0, C − d) for every action list and all data")],
+                     T("Rl4co.Pdp.reward_eq_objective_force", "proved", "same for action lists 0 :: customers (forced start), D 0 0 = 0"),
+                     T("Rl4co.Spec.Pdp.objective_eq_tsp", "proved", "Spec sanity: PDP objective = TSP objective of depot :: customers")],
+    ("C03", "smtwtp"): [T("Rl4co.Smtwtp.reward_eq_objective", "proved", "reward = −Σ w·max(0, C − d) for every action list and all data"),
+                        T("Rl4co.Spec.Smtwtp.objective_nonneg", "proved", "Spec sanity: non-negative weights ⇒ objective ≥ 0"),
+                        T("Rl4co.Spec.Smtwtp.wtFrom_zero_of_on_time", "proved", "Spec sanity: no job late ⇒ objective 0"),
+                        T("Rl4co.Spec.Smtwtp.objective_single", "proved", "Spec sanity: one job costs w·max(0, p − d)"),
+                        T("Rl4co.Spec.Smtwtp.feasible_range'", "proved", "Spec sanity: a schedule exists for every n")],
     # ---------------- C04
     ("C04", "tsp"): [T("Rl4co.Tsp.batchStep_eq_rowStep", "proved", "lock-step lemma: with a common step counter the batch-global `td['i'].all() == 0` flag equals each row's own flag"),
                      T("Rl4co.Tsp.batchExec_eq_rowExec", "proved", "a batch reset together stays in lock-step; batched execution = row-wise execution"),
-                     T("Rl4co.Tsp.batch_row_eq_solo", "proved", "state of row r after any batched steps = solo run of instance r on its own actions")],
+                     T("Rl4co.Tsp.batch_row_eq_solo", "proved", "state of row r after any batched steps = solo run of instance r on its own actions"),
+                     T("Rl4co.Tsp.batch_rows_finish_together", "proved", "∀ batch ∀ row: every row of a mask-confined batch of n-node instances is the solo state and is done ⇔ n columns were played")],
     ("C04", "atsp"): [T("Rl4co.Atsp.batchStep_eq_rowStep", "proved", "lock-step lemma for the row-0 read `batch_to_scalar(td['i'])`"),
                       T("Rl4co.Atsp.batchExec_eq_rowExec", "proved", "batched execution = row-wise execution, rows stay in lock-step"),
-                      T("Rl4co.Atsp.batch_row_eq_solo", "proved", "state of row r after any batched steps = solo run of instance r")],
+                      T("Rl4co.Atsp.batch_row_eq_solo", "proved", "state of row r after any batched steps = solo run of instance r"),
+                      T("Rl4co.Atsp.batch_rows_finish_together", "proved", "∀ batch ∀ row: solo state, done ⇔ n columns were played")],
     ("C04", "pdp"): [T("Rl4co.Pdp.batch_row_eq_solo", "proved", "row r of the (row-wise) batched step = solo run of instance r")],
     ("C04", "smtwtp"): [T("Rl4co.Smtwtp.batch_row_eq_solo", "proved", "row r of the (row-wise) batched step = solo run of instance r")],
     # ---------------- C05
@@ -1164,12 +1186,18 @@ THEOREMS.update({
                      T("Rl4co.Tsp.check_sound_partial", "partial", "checker accepts ∧ width = n ⇒ feasible"),
                      T("Rl4co.Tsp.check_sound_counterexample", "proved", "¬ full soundness: [0,1,2] on 5 nodes is accepted (known finding)"),
                      T("Rl4co.Tsp.check_iff", "proved", "acceptance ⇔ permutation of 0..width-1"),
-                     T("Rl4co.Tsp.feasible_iff_check_and_width", "proved", "feasible ⇔ accepted ∧ width = n (exact characterisation)")],
+                     T("Rl4co.Tsp.feasible_iff_check_and_width", "proved", "feasible ⇔ accepted ∧ width = n (exact characterisation)"),
+                     T("Rl4co.Tsp.checkWith_true_iff", "proved", "repaired clause: the checker with num_loc from the instance accepts exactly the feasible tours"),
+                     T("Rl4co.Tsp.check_sound_complete_of_fixed", "proved", "if the extracted width source is the instance, the checker as written is sound and complete (fix verifiable by one probe)"),
+                     T("Rl4co.Tsp.width_source_is_action_tensor", "proved", "today's extracted width source: the action tensor (the known finding)")],
     ("C06", "atsp"): [T("Rl4co.Atsp.check_complete", "proved", "feasible tour ⇒ checker accepts"),
                       T("Rl4co.Atsp.check_sound_partial", "partial", "checker accepts ∧ width = n ⇒ feasible"),
                       T("Rl4co.Atsp.check_sound_counterexample", "proved", "¬ full soundness (known finding)"),
                       T("Rl4co.Atsp.check_iff", "proved", "acceptance ⇔ permutation of 0..width-1"),
-                      T("Rl4co.Atsp.feasible_iff_check_and_width", "proved", "feasible ⇔ accepted ∧ width = n")],
+                      T("Rl4co.Atsp.feasible_iff_check_and_width", "proved", "feasible ⇔ accepted ∧ width = n"),
+                      T("Rl4co.Atsp.checkWith_true_iff", "proved", "repaired clause: sizes from the instance ⇒ sound and complete"),
+                      T("Rl4co.Atsp.check_sound_complete_of_fixed", "proved", "fix verifiable by flipping the width-source probe"),
+                      T("Rl4co.Atsp.width_source_is_action_tensor", "proved", "today's width source: the action tensor")],
     ("C06", "pdp"): [T("Rl4co.Pdp.check_complete", "proved", "feasible ⇒ checker accepts (no forced start)"),
                      T("Rl4co.Pdp.check_complete_force", "proved", "feasible ⇒ checker accepts (forced start)"),
                      T("Rl4co.Pdp.check_sound_partial", "partial", "accepts ∧ width = n ⇒ feasible (no forced start)"),
@@ -1177,7 +1205,12 @@ THEOREMS.update({
                      T("Rl4co.Pdp.check_sound_partial_force_tour", "partial", "accepts ∧ width = n+1 ⇒ feasible closed depot tour, depot first or last (forced start)"),
                      T("Rl4co.Pdp.check_sound_counterexample", "proved", "¬ full soundness: [1,2] on 2 pairs is accepted (known finding)"),
                      T("Rl4co.Pdp.feasible_iff_check_and_width", "proved", "no forced start: feasible ⇔ accepted ∧ width = n"),
-                     T("Rl4co.Pdp.feasibleTour_iff_check_and_width", "proved", "forced start: feasible closed depot tour (depot first or last) ⇔ accepted ∧ width = n+1")],
+                     T("Rl4co.Pdp.feasibleTour_iff_check_and_width", "proved", "forced start: feasible closed depot tour (depot first or last) ⇔ accepted ∧ width = n+1"),
+                     T("Rl4co.Pdp.checkWith_true_iff", "proved", "repaired clause (no forced start): sizes from the instance ⇒ accepts exactly the feasible sequences"),
+                     T("Rl4co.Pdp.checkWith_true_iff_force", "proved", "repaired clause (forced start): accepts exactly the feasible closed depot tours"),
+                     T("Rl4co.Pdp.check_sound_complete_of_fixed", "proved", "fix verifiable by flipping the width-source probe"),
+                     T("Rl4co.Pdp.check_sound_complete_of_fixed_force", "proved", "same, forced start"),
+                     T("Rl4co.Pdp.width_source_is_action_tensor", "proved", "today's width source: the action tensor")],
     # ---------------- C12
     ("C12", "pdp"): [T("Rl4co.Pdp.selectStartNodes_eq_startsOf", "proved", "PDPEnv.select_start_nodes is the generic rule startsOf B k 1 h (pickups)"),
                      T("Rl4co.Pdp.starts_feasible", "proved", "no forced depot start, k ≤ get_num_starts: every forced start is admitted by the reset mask"),
